@@ -5,8 +5,11 @@ import (
 	"context"
 	"errors"
 	"fmt"
+	"os"
+	"os/exec"
 	"sort"
 	"strings"
+	"time"
 
 	zed "github.com/brimdata/super"
 	"github.com/brimdata/super/api"
@@ -504,6 +507,71 @@ func (m *Model) Exec(ctx context.Context, l *Lake, b Backing, op Op) Outcome {
 			prob("compact:values-changed", "compacted objects do not hold the values of their sources: %s", d)
 		}
 		m.addCommit(&MCommit{ID: commit, Parent: tip, Adds: adds, Dels: ids, Kind: "compact"}, op.Branch)
+	case "manage":
+		// `super db manage`: the compaction planner lives in cmd/super/internal and
+		// is reachable only through the binary, on a lake in a real directory.
+		bin := os.Getenv("VERIF_SUPER_BIN")
+		rd, isDir := b.(interface{ RealDir() string })
+		if bin == "" || !isDir || op.Branch != "main" {
+			out.Skipped = true
+			return out
+		}
+		args := []string{"db", "manage", "-lake", rd.RealDir() + RootURI.Path, "-pool", m.Spec.Name}
+		if op.Vectors {
+			args = append(args, "-vectors")
+		}
+		cctx, cancel := context.WithTimeout(ctx, 5*time.Minute)
+		text, err := exec.CommandContext(cctx, bin, args...).CombinedOutput()
+		cancel()
+		if err != nil {
+			out.Err = fmt.Errorf("super %s: %v: %s", strings.Join(args, " "), err, text)
+			prob("manage:command-failed", "%v", out.Err)
+			return out
+		}
+		newTip, err := l.API.CommitObject(ctx, m.PoolID, op.Branch)
+		if err != nil {
+			prob("manage:branch-unreadable", "after manage: %v", err)
+			return out
+		}
+		if newTip == tip {
+			return out // nothing to do for the planner
+		}
+		listed, err := l.Objects(ctx, m.Spec.Name, op.Branch)
+		if err != nil {
+			prob("manage:branch-unreadable", "object listing after manage: %v", err)
+			return out
+		}
+		old := m.State(tip)
+		now := map[ksuid.KSUID]bool{}
+		var adds, dels []ksuid.KSUID
+		for _, o := range listed {
+			now[o.ID] = true
+			if !old[o.ID] {
+				adds = append(adds, o.ID)
+			}
+		}
+		for _, id := range SortedIDs(old) {
+			if !now[id] {
+				dels = append(dels, id)
+			}
+		}
+		if err := m.learnObjects(b, adds); err != nil {
+			prob("manage:unreadable-object", "%v", err)
+			return out
+		}
+		var in, outv []zed.Value
+		for _, id := range dels {
+			in = append(in, m.Objects[id]...)
+		}
+		for _, id := range adds {
+			outv = append(outv, m.Objects[id]...)
+		}
+		if d := multisetDiff(recsOfVals(in), recsOfVals(outv)); d != "" {
+			prob("manage:values-changed", "objects written by manage do not hold the values of the objects it removed: %s", d)
+		}
+		out.Commit = newTip
+		// one model commit stands for the run of compaction commits manage made
+		m.addCommit(&MCommit{ID: newTip, Parent: tip, Adds: adds, Dels: dels, Kind: "compact"}, op.Branch)
 	case "add-vectors", "del-vectors":
 		ids := dedup(m.pickObjs(op.Branch, op.Objs, op.Any))
 		if len(ids) == 0 {
